@@ -57,6 +57,30 @@ WFClause(o) ==
   ELSE IF ChainNames(o) \cap CovNames(o) # {} THEN "cov-name-clash"
   ELSE IF WellFormed(o) THEN "ok" ELSE "names-list"
 
+\* ------------------------------------------------------------------ Construct: a primary observable from samples
+\* samples on one chain: replica mean r, fluctuations d = x - r
+MeanOf(x) == RDiv(RSumSeq(x), RFromInt(Len(x)))
+MkChain(name, idl, x) ==
+  LET r == MeanOf(x) IN
+  [name |-> name, idl |-> idl, isrange |-> EquallySpaced(idl), intcfg |-> TRUE, shape |-> Len(idl),
+   d |-> [i \in DOMAIN x |-> RSub(x[i], r)], r |-> r]
+\* chains: sequence of [name, idl, x] of ONE ensemble, in any order; the central value is the mean over all samples
+ConstructValue(chs) ==
+  RDiv(FoldSeq(LAMBDA c, acc : RAdd(acc, RSumSeq(c.x)), "0", chs), RFromInt(FoldSeq(LAMBDA c, acc : acc + Len(c.x), 0, chs)))
+Construct(chs) ==
+  LET order == SortSeq(chs, LAMBDA a, b : StrLess(a.name, b.name))
+      chains == [k \in DOMAIN order |-> MkChain(order[k].name, order[k].idl, order[k].x)]
+  IN [chains |-> chains, cov |-> <<>>, value |-> ConstructValue(chs), vkind |-> "float",
+      names |-> [k \in DOMAIN chains |-> chains[k].name], namesok |-> TRUE,
+      N |-> FoldSeq(LAMBDA c, acc : acc + Len(c.x), 0, chs), rew |-> FALSE, finite |-> TRUE]
+\* the requests the constructor must reject (property C04)
+ConstructRejects(chs) ==
+  \/ \E i, j \in DOMAIN chs : i # j /\ chs[i].name = chs[j].name               \* duplicate names
+  \/ Cardinality({Ens(chs[i].name) : i \in DOMAIN chs}) > 1                    \* several ensembles in one call
+  \/ \E i \in DOMAIN chs : Len(chs[i].x) < 5                                   \* fewer than five samples
+  \/ \E i \in DOMAIN chs : Len(chs[i].x) # Len(chs[i].idl)                      \* length mismatch
+  \/ \E i \in DOMAIN chs : ~StrictlyIncreasing(chs[i].idl)                      \* unsorted or duplicate configuration numbers
+
 \* ------------------------------------------------------------------ Derive: linear error propagation (property C01)
 AllChainNames(ops) == UNION {ChainNames(ops[i]) : i \in DOMAIN ops}
 AllCovNames(ops)   == UNION {CovNames(ops[i]) : i \in DOMAIN ops}
@@ -103,6 +127,12 @@ DeriveCovGrad(ops, g, n) ==
       RECURSIVE Acc(_)
       Acc(i) == IF i > Len(ops) THEN [k \in 1..dim |-> "0"] ELSE RAddSeq(Term(i), Acc(i + 1))
   IN Acc(1)
+
+\* operands that name the same external covariance input must carry the same covariance matrix
+\* (numpy.allclose tolerance of the library mirrored: 1e-5 relative, 1e-8 absolute)
+CovConsistent(ops) == \A i, j \in DOMAIN ops : \A n \in CovNames(ops[i]) \cap CovNames(ops[j]) :
+     LET a == CovOf(ops[i], n).cov  b == CovOf(ops[j], n).cov IN
+     Len(a) = Len(b) /\ \A k \in DOMAIN a : RCloseSeq(a[k], b[k], "1/100000", "1/100000000")
 
 \* replica-mean arguments: the operand's replica mean on chain n, its central value where it lacks the chain
 RArgs(ops, n) == [i \in DOMAIN ops |-> IF HasChain(ops[i], n) THEN Chain(ops[i], n).r ELSE ops[i].value]
